@@ -157,6 +157,71 @@ func (d *Ledger) ActAdversarial() {
 	if len(args) > 14 {
 		args = args[:14]
 	}
+	plain := false
+	if (fn == "MultiESDTNFTTransfer" || fn == "ESDTNFTTransfer") && d.chance(12) {
+		// a holder sends to the shard's system account (an ordinary address for a transaction): its token keys hold 2-byte pause
+		// flags that do not decode as token data.  Preferred: a holding whose storage key IS such a flag key, sent from the shard
+		// the system-account address belongs to (the credit is then attempted on the spot).
+		home := d.W.HomeShard(world.SysAddr)
+		flagKeys := map[string]bool{}
+		if home >= 0 && home < len(d.W.Shards) {
+			if sa := d.W.Shards[home].Peek(world.SysAddr); sa != nil {
+				for k := range sa.Storage {
+					flagKeys[k] = true
+				}
+			}
+		}
+		var pick *holding
+		hs := d.holdings()
+		for i := range hs {
+			h := &hs[i]
+			if fn == "ESDTNFTTransfer" && h.nonce == 0 {
+				continue
+			}
+			if d.shardOfName(h.acct) == home && flagKeys["ELRONDesdt"+string(h.key)] {
+				pick = h
+				if d.chance(50) {
+					break
+				}
+			}
+		}
+		if pick == nil && fn == "MultiESDTNFTTransfer" && d.chance(50) {
+			// set the situation up: pause and un-pause a fungible token somebody on that shard holds (the flag entry stays, cleared)
+			for i := range hs {
+				h := &hs[i]
+				if h.nonce == 0 && d.shardOfName(h.acct) == home && d.W.Info(h.acct).Kind != "junk" {
+					for _, pf := range []string{"ESDTPause", "ESDTUnPause"} {
+						pc := &world.Call{Fn: pf, Caller: d.W.Addr("esdtsc"), Rcpt: world.SysAddr, Args: [][]byte{h.tok}, Gas: 600000, Value: big.NewInt(0)}
+						d.record("exec", home, pc)
+					}
+					pick, plain = h, true
+					break
+				}
+			}
+		}
+		if pick == nil {
+			for i := range hs {
+				h := &hs[i]
+				if h.acct == caller && !(fn == "ESDTNFTTransfer" && h.nonce == 0) {
+					pick = h
+					if d.chance(50) {
+						break
+					}
+				}
+			}
+		} else {
+			plain = d.chance(80)
+		}
+		if pick != nil {
+			caller = pick.acct
+			if fn == "MultiESDTNFTTransfer" {
+				args = [][]byte{world.SysAddr, nb(1), pick.tok, nb(pick.nonce), d.amt(1)}
+			} else {
+				args = [][]byte{pick.tok, nb(pick.nonce), d.amt(1), world.SysAddr}
+			}
+			rcpt = d.W.Addr(caller)
+		}
+	}
 	c := &world.Call{Fn: fn, Caller: d.W.Addr(caller), Rcpt: rcpt, Args: args, Value: big.NewInt(0), CT: vmcommon.CallType(d.R.Intn(4)), RAE: d.chance(5)}
 	switch d.R.Intn(5) {
 	case 0:
@@ -168,6 +233,9 @@ func (d *Ledger) ActAdversarial() {
 	}
 	if d.chance(4) {
 		c.Value = new(big.Int).Set(d.Scale)
+	}
+	if plain {
+		c.Gas, c.CT, c.RAE, c.Value = 700000, vmcommon.DirectCall, false, big.NewInt(0)
 	}
 	if fn == "MultiESDTNFTTransfer" && len(c.Args) > 1 && len(c.Args[1]) >= 8 && d.chance(70) {
 		c.Gas = ^uint64(0) // a wrapped count also wraps count*cost: give the path past the gas guard a chance
